@@ -42,7 +42,7 @@ def _core(fx, col):
     for r in (R.rule_publish_confirm, R.rule_intent_first, R.rule_pay_before_release, R.rule_cover_all, R.rule_claim_empty,
               O.rule_pay_cas, R.rule_pay_used, R.rule_slot_closed, O.rule_inuse_fsm, N.rule_reuse_first, P.rule_next_once,
               T.rule_cooldown_owned, T.rule_node_stable, I.rule_addr_guard, I.rule_addr_before_gen, I.rule_own_storage,
-              O.rule_mp, O.rule_rmw_only, L.rule_ledger, L.rule_bypass, A.rule_lock_span, A.rule_wrapper_pure):
+              O.rule_mp, O.rule_rmw_only, L.rule_ledger, L.rule_bypass, A.rule_lock_span, A.rule_wrapper_pure, R.rule_ptr_exclusive):
         r(fx, col)
 
 
@@ -100,7 +100,7 @@ def _c13(fx, col):
 
 
 prop('C13', 'operations are total',
-     [_c13, P.rule_loop_class],
+     [_c13, P.rule_loop_class, A.rule_lock_poison],
      'Decides: every panic-capable terminator reachable from the API roots under the Hybrid strategies (calls into '
      'core::panicking, Option/Result unwrap/expect, assert!/debug_assert!/unreachable!, compiler-inserted bounds / overflow / '
      'division / pointer checks) is matched by a line-free signature to a discharge, and each discharge is itself a checked '
@@ -172,7 +172,7 @@ def _usercall_inventory(fx, col):
 
 
 prop('C18', 'panics in user code leave the container consistent',
-     [_usercall_inventory, L.rule_ledger_unwind, T.rule_txn_closed, R.rule_fast_window, R.rule_cover_all, R.rule_pay_before_release, L.rule_bypass],
+     [_usercall_inventory, L.rule_ledger_unwind, T.rule_txn_closed, R.rule_fast_window, R.rule_cover_all, R.rule_pay_before_release, L.rule_bypass, T.rule_writers_raii, A.rule_lock_poison],
      'Decides: the complete list of user-code call sites reachable from the API (trait methods on type parameters, closure '
      'parameters, drops of generic values, RefCnt::dec) and, for each, that no raw (non-RAII) reference count is held '
      'across it: the ledger evaluated along every unwind edge must reach `resume` with balance 0 (LEDGER-UNWIND; direct '
@@ -201,7 +201,7 @@ def _ord_c11(fx, col):
 
 
 prop('C11', 'thread churn is safe and bounded',
-     [O.rule_inuse_fsm, N.rule_reuse_first, T.rule_cooldown_owned, _raii_only, _ord_c11, T.rule_node_some, T.rule_node_stable, P.rule_next_once],
+     [O.rule_inuse_fsm, N.rule_reuse_first, T.rule_cooldown_owned, _raii_only, _ord_c11, T.rule_node_some, T.rule_node_stable, P.rule_next_once, T.rule_writers_raii],
      'Decides: the ownership flag of a node only moves along the four legal edges, the release edge guarded by '
      'in_use == COOLDOWN and active_writers == 0 and performed by compare_exchange (INUSE-FSM); a node is allocated only '
      'after a complete failed attempt to reuse one, is initialised before it is published, and is claimed only by a '
